@@ -63,3 +63,43 @@ Definition is_data_row (line : string) : bool :=
 Lemma halflife_rows_examined : length (filter is_data_row ActivationDat.activation_dat) = 513%nat.
 Proof. vm_compute. reflexivity. Qed.
 
+
+(* ---- rows of the two-step ('2n') and decay-fed ('b') kind carry the half-life of the intermediate nuclide in column
+   "Thalf_parent".  That nuclide is the product of the primary row just above (same element): its "Thalf_hrs" is the
+   same number.  A mis-typed parent half-life breaks this. *)
+Definition reaction_of (raw : list string) : string :=
+  let r := nth 12 raw "" in if startswith """" r then strip_ends r else r.
+
+Fixpoint parent_halflives_ok (lines : list string) (prev : option (Z * Q)) : bool :=
+  match lines with
+  | [] => true
+  | line :: rest =>
+      let raw := split_char (ascii_of_nat 9) line in
+      match parse_int (nth 2 raw "") with
+      | None => parent_halflives_ok rest prev
+      | Some z =>
+          let reac := reaction_of raw in
+          if (String.eqb reac "b" || String.eqb reac "2n")%bool then
+            match prev, parse_dec (nth 19 raw "") with
+            | Some (zp, tp), Some par => (Z.eqb z zp && Qeq_bool par tp && parent_halflives_ok rest prev)%bool
+            | _, _ => false
+            end
+          else
+            match parse_dec (nth 17 raw "") with
+            | Some t => parent_halflives_ok rest (Some (z, t))
+            | None => false
+            end
+      end
+  end.
+
+Lemma sweep_parent_halflives : parent_halflives_ok ActivationDat.activation_dat None = true.
+Proof. vm_compute. reflexivity. Qed.
+
+Definition is_chain_row (line : string) : bool :=
+  let raw := split_char (ascii_of_nat 9) line in
+  match parse_int (nth 2 raw "") with
+  | Some _ => (String.eqb (reaction_of raw) "b" || String.eqb (reaction_of raw) "2n")%bool
+  | None => false
+  end.
+Lemma chain_rows_examined : length (filter is_chain_row ActivationDat.activation_dat) = 92%nat.
+Proof. vm_compute. reflexivity. Qed.
